@@ -32,7 +32,7 @@ BOUNDS = {"quick": "battery: 3 inverters incl. one feeding two batteries, and a 
                    "with 5 outcomes for 1 group; PV: 2 and 3 inverters, 5 outcomes per call",
           "thorough": "battery full path with outcomes for 2 groups; PV 4 inverters"}
 OUTSIDE = "EV charger manager; result fan-out through channels; more inverters"
-BUDGET = {"quick": 600, "thorough": 2400}
+BUDGET = {"quick": 900, "thorough": 1500}
 OUT = ["ok", "range", "client", "other", "timeout"]
 
 
